@@ -23,6 +23,14 @@ CLAIMED = {
          "Structural necessary conditions: checkCmd honours a grant only with StartTime <= now < ExpTime, matching kind and identical command text on one element, and deletes it; every handler that sess.start dispatches and that reaches a process start / dial / listen / grant issuing is guarded for grant sessions; consumed grants take their key out of the transport key set; checkIntent is fail-closed.",
          "Trusts go/ssa, VTA call graph, the sink list (os/exec, pty, net.Dial*/Listen*, StartTargetInstance). Wall-clock behaviour between check and use is not decided.",
          "DESIGN.md §3 C07"),
+ "C03": ("ordered-event path analysis on readPacketLocked (type, session id, Check, Open, Mark of the same counter), dominance with polarity in both handleSessionMessage functions, who-may-call/write (closeLocked, count, replay window), constant-slice associated-data regions, def-use provenance of packet bytes, induction-shape check of the Write chunk loop",
+         "Structural necessary conditions: no delivery, control handling, close or replay-window mark without a prior successful AEAD open of that datagram under the read key with the header+session id+counter as associated data; the counter checked is the counter marked; the send counter advances exactly once per seal under the session lock; Write's chunk loop starts at 0, steps by its chunk width, propagates errors and reports what it sent; plaintext flows only into Seal.",
+         "Trusts go/ssa and the role tables. The window algorithm (C14) and SANSE itself (C12) are not decided here. An unrecognised chunk-loop shape yields UNDECIDED, not a pass.",
+         "DESIGN.md §3 C03"),
+ "C15": ("who-may-write on SessionState.remoteAddr and the replay window, dominance with polarity (address store after readPacketLocked's nil edge), ordered-event path analysis of Handle.send (lock, seal, capture, write)",
+         "Structural necessary conditions: the peer address has exactly four writers (two constructions, two post-authentication tails); the tail stores are dominated by a successful open+replay check of the datagram whose source they store; nothing else reads, copies or writes the replay window; the sender uses the address captured under the lock after sealing.",
+         "Trusts go/ssa; C03.R1 supplies that readPacketLocked's success implies Check and Open. History-level roaming behaviour is not decided.",
+         "DESIGN.md §3 C15"),
 }
 
 NOT_APPLICABLE = {
